@@ -10,7 +10,7 @@
    `log_of c evs` are the messages delivered on channel c; `submitted W c` those submitted on c. *)
 From Coq Require Import ZArith List Bool.
 From RV Require Import Lib.Wrap Gen.Consts Gen.Sctp Model.SctpRecv
-     Proofs.SctpRecvBase Proofs.SctpRecvRefine Proofs.SctpSendSpec Proofs.SctpTheorems Proofs.SctpWrapWitness.
+     Proofs.SctpRecvBase Proofs.SctpRecvRefine Proofs.SctpSendSpec Proofs.SctpTheorems Proofs.SctpWrapWitness Proofs.SctpRwnd.
 Import ListNotations.
 Open Scope Z_scope.
 
@@ -113,6 +113,28 @@ Theorem C01_setup_replay_safety_refuted :
     Forall (genuine_input (chunks sc W t0)) h /\
     exists c, ~ exists n, log_of c (snd (run (init_r 0 rc) h)) = firstn n (submitted W c).
 Proof. exact setup_replay_safety_refuted. Qed.
+
+(* Receive-window accounting is conservative (the liveness clause depends on it: a window that
+   leaks ends at a_rwnd = 0 for ever and the peer stops sending).  For EVERY history of DATA
+   chunks that are not DCEP -- arbitrary TSNs, any number of duplicates of buffered chunks -- setup
+   chunks, close calls and teardown, used_rwnd is (mod 2^64) the total length of the chunks
+   waiting in received_queue and their TSNs are distinct. *)
+Theorem C01_rwnd_accounting : forall h st, rw_inv st -> Forall rw_input h -> rw_inv (fst (run st h)).
+Proof. exact rwnd_accounting. Qed.
+
+(* No leak: for the histories of C01 the accounting holds throughout, and once every chunk has
+   arrived at least once the reorder queue is empty, nothing is charged and the advertised window
+   (a_rwnd of the next SACK) is the configured receive window again. *)
+Theorem C01_rwnd_no_leak : forall sc W t0 rc h local,
+  Z.of_nat (length (chunks sc W t0)) < 2147483648 ->
+  wf_workload sc W ->
+  Forall (genuine_input (chunks sc W t0)) h ->
+  0 <= local <= 4294967295 ->
+  let st := fst (run (est_r (w32 (t0 - 1)) rc) h) in
+  r_used st = cast_usize (sum_len (r_rq st)) /\
+  ((forall c, In c (chunks sc W t0) -> In (IData c) h) ->
+   r_rq st = [] /\ r_used st = 0 /\ adv_rwnd local st = local).
+Proof. exact rwnd_no_leak. Qed.
 
 (* In-order processing of any prefix of the sender's stream logs a prefix of the submissions. *)
 Theorem C01_in_order_prefix : forall sc W ssns a k c,
